@@ -334,7 +334,7 @@ Proof.
     by (change (@nil nat) with (ridx rowst0); rewrite map_nth; exact E1).
   assert (EP : nth j (map rP rows) [] = p0 :: Pn)
     by (change (@nil (list T)) with (rP rowst0); rewrite map_nth; exact E2).
-  rewrite EI, EP. repeat split.
+  rewrite EI, EP. split; [|split; [|split; [|split; [|split]]]].
   - cbn [shape map]. constructor; auto.
   - simpl. now rewrite HLn.
   - constructor; [|exact HF]. rewrite Hp0. fold s. unfold s. now apply lsum_normalised.
